@@ -214,6 +214,14 @@ AREAS = [
                    'Zone::GetLocalZone()': ('Some l', 'zptr'), 'this': ('Some z', 'zptr')},
              fns={'zptr->GetGlobal': ('xz_global t', ['zptr'], 'bool'), 'zptr->IsChildOf': ('xz_is_child_of t', ['zptr', 'zptr'], 'bool')}),
     ]),
+    # ---------------------------------------------------------------------------------------- C18 (tracked, outside the subset today)
+    dict(area='perm', requires=['Icv.Src.XlPrelude'], items=[
+        # builds Expression objects with `new`, writes through an out-parameter: not translatable; listed so that the evidence
+        # shows it as a fallback (tie by the correspondence run only) and so that a future rewrite into the subset is noticed
+        dict(name='filterutility_has_permission', func='FilterUtility::HasPermission', file='lib/remote/filterutility.cpp', props=['C18'],
+             inputs=[('perm_empty', 'bool'), ('matches', 'list bool')], ret='bool', theorem=None,
+             bind={'permission.IsEmpty()': Bb('perm_empty')}),
+    ]),
 ]
 
 ENUM_SOURCES = [('lib/icinga/checkresult.ti', ['HostState', 'ServiceState', 'StateType'], 'f_'),
@@ -261,6 +269,22 @@ def run(rd, emit, log, enum_values, ti_default):
                                reason=res['reason'], skipped=res['skipped'], symbolic=res['symbolic'], notes=res['notes'], props=t['props'],
                                sha1=hashlib.sha1(res.get('term', '').encode()).hexdigest()[:12]))
         emit('Facts_fn_%s.v' % area['area'], body)
+    # which property-level theorems (coq/Properties_<ID>_src.v) speak about which translated function
+    coqdir = os.path.join(os.path.dirname(HERE), 'coq')
+    thms = {}
+    for fn in sorted(os.listdir(coqdir)):
+        m = re.match(r'Properties_(C\d+)_src\.v$', fn)
+        if not m: continue
+        txt = open(os.path.join(coqdir, fn)).read()
+        for tm in re.finditer(r'^Theorem\s+(\w+)\s*:(.*?)^Proof\.', txt, re.S | re.M):
+            for f in set(re.findall(r'\bsrc_\w+?(?=_recognised\b)', tm.group(2))):
+                thms.setdefault(f, []).append(tm.group(1))
+    for r in report:
+        r['theorems'] = thms.get(r['name'] if r['name'].startswith('src_') else 'src_' + r['name'], [])
+        if r.get('kind') == 'glue':
+            r['tie'] = 'glue, hand-written in tools/facts_fn.py (trusted)'; continue
+        r['tie'] = ('translated, proved equal to the model' if r['theorems'] else 'translated, no theorem yet') if r['recognised'] \
+                   else 'fallback: compared by the correspondence run only'
     n_ok = sum(1 for r in report if r['recognised'])
     log.append('xlate: %d/%d functions translated' % (n_ok, len(report)))
     out = os.path.join(os.environ.get('VERIF_BUILD', os.path.join(os.path.dirname(HERE), 'build')), 'xlate_report.json')
